@@ -135,6 +135,13 @@ def clipped_sines(t, rnd):
                                           "padding": -1, "seektable": "none", "window": rnd.choice(WINDOWS)},
                                  "pcm": {"signal": "clipsine:%d" % gain, "seed": rnd.randint(1, 99999), "frames": bs * 2 + rnd.choice([0, 100])},
                                  "tag": "clipped-sine", "inline_limit": 0})
+    # a quiet smooth signal with isolated excursions from rail to rail: a predictor fitted to the quiet part is off by more than the range
+    # of a sample there (the residual must be refused or exact, never formed from a prediction cut to 32 bits)
+    for bps in (32, 32, 24):
+        for lpc in (2, 8, 32):
+            jobs.append({"fe": rnd.choice(FES), "rate": 44100, "bps": bps, "channels": rnd.choice([1, 2]),
+                         "opts": {"block_size": 256, "max_lpc": lpc, "padding": -1, "seektable": "none"},
+                         "pcm": {"signal": "railglitch", "seed": rnd.randint(1, 99999), "frames": 256 * 2 + 31}, "tag": "rail-glitch", "inline_limit": 0})
     return jobs
 
 
